@@ -97,6 +97,14 @@ class JaqalLexer(Lexer):
         token.value = int(token.value[1:-1], base=2)
         return token
 
+    def error(self, token):
+        """Standard callback by the lexer for characters that cannot start
+        any token."""
+        col = token.index - self.text.rfind("\n", 0, token.index)
+        raise JaqalParseError(
+            "<string>", self.lineno, col, f"Illegal character {token.value[0]!r}"
+        )
+
 
 class JaqalParser(Parser):
     """Parse Jaqal into core types."""
@@ -483,10 +491,17 @@ class JaqalParser(Parser):
         if token is not None:
             line = token.lineno
             col = self.compute_col(token.index)
+            msg = f"At token `{token.value}`"
+        elif self._source_text is not None:
+            # The input ended too early: report the position just past the end.
+            line = self._source_text.count("\n") + 1
+            col = len(self._source_text) - self._source_text.rfind("\n")
+            msg = "Unexpected end of input"
         else:
             line = "EOF"
             col = 0
-        raise JaqalParseError(self._source, line, col, f"At token `{token.value}`")
+            msg = "Unexpected end of input"
+        raise JaqalParseError(self._source, line, col, msg)
 
     def raise_error(self, message):
         """Common method for when errors come up not in the grammar but in the
